@@ -514,7 +514,7 @@ def judge_case(case) -> List[Dict[str, str]]:
                 continue
             props = st["props"]
             sibling = k != target and kind not in ("init", "create")
-            if not ref.consistent(props):
+            if not ref.admits_conforming(props):
                 if kind == "init" and case.get("def") is not None:
                     # a shipped definition whose declared set admits no conforming value at all
                     shown = {x: props[x] for x in _SHOWN if x in props}
@@ -716,6 +716,11 @@ def gen_override(rng, cur, stored_hint=None):
         if rng.random() < 0.04 and props is not None:
             props = dict(props)
             props["Format"] = rng.choice(NUMERIC + ["string", "bool", "tlv8"])
+        if rng.random() < 0.08:
+            # an override that is REFUSED (maxLen above 256), alone or carrying other constraints:
+            # nothing of it may stay behind
+            props = dict(props or {}) if rng.random() < 0.75 else {}
+            props["maxLen"] = rng.choice([257, 300, 2**31])
         op = {"op": "override", "props": props, "valid_values": vv}
         new = merged_props(cur, op)
         if ref.consistent(new):
@@ -815,6 +820,32 @@ def sibling_scripts(name, props) -> List[Dict[str, Any]]:
             {"op": "create"},
             {"op": "set", "v": 1, "notify": True, "inst": 2},
         ]})
+    return cases
+
+
+def refused_override_scripts(name, props) -> List[Dict[str, Any]]:
+    """Overrides that `_validate_properties` refuses (maxLen 257 / 300 / 2**31), alone and combined with
+    range / step / valid-values / format changes the stored value does not satisfy, and a valid
+    override after a refused one: a refused call is a no-op, the history goes on as if it never happened."""
+    cases = []
+    cfg = {"allowInvalid": False, "hasSetter": True}
+    pairs = _narrowings(props)[:2] or [(1, {"props": {"minStep": 5}, "valid_values": None})]
+    for n, (legal, ov) in enumerate(pairs):
+        big = [257, 300, 2**31][n % 3]
+        mixed = dict(ov, op="override", props=dict(ov.get("props") or {}, maxLen=big))
+        only = {"op": "override", "props": {"maxLen": big}, "valid_values": None}
+        valid = dict(ov, op="override")
+        cases.append({"def": name, "cfg": cfg, "ops": [
+            {"op": "set", "v": legal, "notify": True}, mixed, {"op": "client", "v": legal}]})
+        cases.append({"def": name, "cfg": cfg, "ops": [
+            {"op": "set", "v": legal, "notify": True}, only, valid, {"op": "client", "v": legal}]})
+        cases.append({"def": name, "cfg": cfg, "ops": [
+            {"op": "set", "v": legal, "notify": True},
+            dict(mixed, op="configure", v=None), dict(only, op="configure", v=0), valid]})
+    fmt_change = {"op": "override", "props": {"Format": "string" if props["Format"] != "string" else "uint8", "maxLen": 300,
+                                              "minStep": 7}, "valid_values": None}
+    cases.append({"def": name, "cfg": cfg, "ops": [{"op": "set", "v": 1, "notify": True}, fmt_change,
+                                               {"op": "set", "v": 2, "notify": True}]})
     return cases
 
 
@@ -984,6 +1015,7 @@ def gen_cases(ctx: Ctx, thorough_size=False) -> List[Dict[str, Any]]:
         cases += boundary_scripts(name, props, rng)
         cases += sibling_scripts(name, props)
         cases += configure_scripts(name, props)
+        cases += refused_override_scripts(name, props)
         for _ in range(5 if quick else 250):
             cfg = {"allowInvalid": rng.random() < 0.15, "hasSetter": rng.random() < 0.8}
             k = rng.choice([1, 1, 1, 2, 3])
@@ -1054,6 +1086,7 @@ def run(ctx: Ctx):
         "scripts = every shipped definition x (the whole boundary pool through set_value and client_update_value in "
         "chunks of 12; huge-value-then-restricting-override; override-invalidating-the-current-value; two/three "
         "instances from ONE Loader with a narrowing override/configure on a sibling and a late-created instance; "
+        "refused overrides (maxLen 257/300/2**31 alone and with other constraints) followed by valid ones; "
         "Service.configure_char with falsy / rejected / absent / fine values after a narrowing) + random scripts "
         "(<= 12 ops of set/client/override/configure/create over 1-3 instances) per shipped definition + random "
         "consistent generated property sets; every instance is judged after every op and compared with its own "
